@@ -52,11 +52,24 @@ def label_parts(lab):
     return name, [a.strip() for a in rest.rstrip(")").split(",")]
 
 
-def dedup_behaviours(ctx, name, num, depth):
-    behs = ctx.tlc_behaviours("Dedup", "MC_Dedup.tla", "Sim_%s.cfg" % name, num=num, depth=depth, timeout=600)
-    if not behs:
-        raise vf.MachineryError("TLC produced no behaviours for Sim_%s" % name)
-    return behs
+_BEHS = {}
+
+# (behaviours, depth) simulated once per run and shared by the waitgroup and the dedup replay
+SIM_QUICK = {"Ord": (70, 40), "OrdT": (40, 60), "Probe": (200, 45), "ProbeQ": (150, 45), "ProbeT": (100, 60),
+             "Split": (120, 45), "Defensive": (250, 40)}
+SIM_THOROUGH = {"Ord": (900, 40), "OrdT": (500, 60), "Probe": (4000, 45), "ProbeQ": (1500, 45), "ProbeT": (2000, 60),
+                "Split": (3000, 45), "Defensive": (5000, 45), "Four": (4000, 60), "FourQ": (1000, 60), "FourI": (3000, 60)}
+
+
+def dedup_behaviours(ctx, name, limit=None):
+    """TLC -simulate behaviours of Dedup.tla for one Sim_<name>.cfg (cached for the run)."""
+    if name not in _BEHS:
+        num, depth = (SIM_THOROUGH if ctx.tier == "thorough" else SIM_QUICK)[name]
+        behs = ctx.tlc_behaviours("Dedup", "MC_Dedup.tla", "Sim_%s.cfg" % name, num=num, depth=depth, timeout=900)
+        if not behs:
+            raise vf.MachineryError("TLC produced no behaviours for Sim_%s" % name)
+        _BEHS[name] = behs
+    return _BEHS[name][:limit] if limit else _BEHS[name]
 
 
 def wg_calls(beh, cfg):
@@ -88,9 +101,11 @@ def wg_calls(beh, cfg):
                 c.update(op="done", g=at(pre["mygen"], r))
             else:
                 created = post["ngen"] > pre["ngen"]
+                p = at(pre["prev"], r) if n == "Regroup" else 0
                 c.update(op="join" if n == "JoinGeneration" else "regroup",
-                         p=at(pre["prev"], r), leader=created, gen=at(post["mygen"], r),
-                         short=(pre["ngen"] + 1) in timeouts)
+                         p=p, leader=created, gen=at(post["mygen"], r),
+                         short=(pre["ngen"] + 1) in timeouts,
+                         tomb=bool(p and at(pre["gTO"], p, False)))
                 if created and at(post["mygen"], r) != post["ngen"]:
                     raise vf.MachineryError("behaviour projection: leader of a new generation holds another one")
         calls.append(c)
@@ -100,13 +115,12 @@ def wg_calls(beh, cfg):
 def waitgroup_replay(ctx, thorough):
     """(a) internal/waitgroup call-by-call."""
     total, uniq = 0, {}
-    plan = [("Probe", 400, 40), ("ProbeQ", 200, 40), ("Defensive", 500, 40), ("Split", 300, 40), ("ProbeT", 200, 60)]
+    plan = ["Probe", "ProbeQ", "Defensive", "Split", "ProbeT"]
     if thorough:
-        plan = [("Probe", 4000, 40), ("Defensive", 5000, 45), ("Split", 3000, 45), ("ProbeT", 2000, 60),
-                ("Four", 4000, 60), ("FourI", 3000, 60)]
-    for name, num, depth in plan:
+        plan += ["Four", "FourQ", "FourI"]
+    for name in plan:
         cfg = DD_CONFIGS[name]
-        for b in dedup_behaviours(ctx, name, num, depth):
+        for b in dedup_behaviours(ctx, name):
             calls = wg_calls(b, cfg)
             total += 1
             if not calls:
@@ -121,9 +135,9 @@ def waitgroup_replay(ctx, thorough):
         for c in b["calls"]:
             kinds[c["op"]] = kinds.get(c["op"], 0) + 1
             if c["op"] == "regroup":
-                kinds["regroup_leader" if c["leader"] else "regroup_follower"] = kinds.get(
-                    "regroup_leader" if c["leader"] else "regroup_follower", 0) + 1
-    for need in ("join", "regroup_leader", "regroup_follower", "done", "timeout"):
+                sub = "regroup_tombstone" if c["tomb"] else ("regroup_leader" if c["leader"] else "regroup_follower")
+                kinds[sub] = kinds.get(sub, 0) + 1
+    for need in ("join", "regroup_leader", "regroup_follower", "regroup_tombstone", "done", "timeout"):
         if not kinds.get(need):
             raise vf.MachineryError("waitgroup replay: no %s call in any behaviour (vacuous)" % need)
     res = ctx.go_driver("./c11", "TestWaitGroupReplay", {"nk": 2, "shortMs": 15, "behaviours": behs},
@@ -141,23 +155,31 @@ def waitgroup_replay(ctx, thorough):
 
 def dedup_replay(ctx, thorough):
     """(b) gated schedules on the real Cache.ServeDNS and (c) trace validation."""
-    plan = [("Ord", 70, 40), ("OrdT", 40, 60), ("Probe", 80, 45), ("ProbeQ", 80, 45), ("ProbeT", 40, 60), ("Split", 50, 45)]
+    # groups share the request set / trace config; members differ in how TLC drives the environment
+    # (sim config, number of behaviours used)
+    plan = [("Ord", [("Ord", 70), ("OrdT", 40)]),
+            ("Probe", [("Probe", 80), ("ProbeQ", 80), ("ProbeT", 40)]),
+            ("Split", [("Split", 50)])]
     if thorough:
-        plan = [("Ord", 900, 40), ("OrdT", 500, 60), ("Probe", 1200, 45), ("ProbeQ", 800, 45), ("ProbeT", 700, 60),
-                ("Split", 700, 45), ("Four", 900, 60), ("FourQ", 600, 60), ("FourI", 900, 60)]
+        plan = [("Ord", [("Ord", 900), ("OrdT", 500)]),
+                ("Probe", [("Probe", 1200), ("ProbeQ", 800), ("ProbeT", 700)]),
+                ("Split", [("Split", 700)]),
+                ("Four", [("Four", 900), ("FourQ", 600)]),
+                ("FourI", [("FourI", 900)])]
     traces_ok = 0
     actions_seen = set()
-    for name, num, depth in plan:
+    for name, members in plan:
         cfg = DD_CONFIGS[name]
         scheds, seen = [], set()
-        for b in dedup_behaviours(ctx, name, num, depth):
-            labs = [x[0] for x in b[1:] if x[0] != "Tick"]
-            actions_seen.update(label_parts(x)[0] for x in labs)
-            key = ";".join(labs)
-            if key in seen or not labs:
-                continue
-            seen.add(key)
-            scheds.append({"id": "%s-%d" % (name, len(scheds)), "steps": labs})
+        for sim, limit in members:
+            for b in dedup_behaviours(ctx, sim, limit):
+                labs = [x[0] for x in b[1:] if x[0] != "Tick"]
+                actions_seen.update(label_parts(x)[0] for x in labs)
+                key = ";".join(labs)
+                if key in seen or not labs:
+                    continue
+                seen.add(key)
+                scheds.append({"id": "%s-%d" % (sim, len(scheds)), "steps": labs})
         trace = os.path.join(ctx.scratch, "dedup_%s.ndjson" % name)
         inp = {"config": name, "nk": cfg["nk"], "maxGen": cfg["maxgen"],
                "reqs": [{"id": r, "key": cfg["key_of"][r], "internal": r in cfg["internal"]} for r in cfg["reqs"]],
@@ -176,7 +198,7 @@ def dedup_replay(ctx, thorough):
                 name, cnt.get("steps", 0), len(scheds)))
         # (c) code -> spec
         nlines = sum(1 for _ in open(trace))
-        ok, r = ctx.tlc_trace("Dedup", "Trace_Dedup.tla", cfg["trace"], trace, timeout=900)
+        ok, r = ctx.tlc_trace("Dedup", "Trace_Dedup.tla", cfg["trace"], trace, timeout=1500)
         info["trace_lines"] = nlines
         info["trace_matched"] = max(0, r.depth - 1)
         if r.violated and r.violated != "TraceAccepted":
@@ -219,27 +241,27 @@ def free_run(ctx, thorough):
 
 
 def model_check(ctx, thorough):
-    quick = [("MC_Ord.cfg", 4), ("MC_Probe2.cfg", 4), ("MC_LiveOrd2.cfg", 4), ("MC_LiveProbe2.cfg", 4), ("MC_TimeWD.cfg", 6)]
-    full = [("MC_Ord.cfg", 6), ("MC_Probe.cfg", 8), ("MC_Split.cfg", 8), ("MC_Defensive.cfg", 8),
-            ("MC_LiveOrd.cfg", 6), ("MC_LiveProbe.cfg", 8), ("MC_TimeWD.cfg", 6), ("MC_TimeDW.cfg", 8),
-            ("MC_LiveOrd2.cfg", 4), ("MC_LiveProbe2.cfg", 4), ("MC_FourI.cfg", 8)]
+    quick = [("MC_Ord.cfg", 4), ("MC_Probe2.cfg", 2), ("MC_LiveOrd2.cfg", 2), ("MC_LiveProbe2.cfg", 2),
+             ("MC_TimeDW2.cfg", 2), ("MC_TimeWD2.cfg", 2)]
+    full = quick + [("MC_Probe.cfg", 8), ("MC_Split.cfg", 8), ("MC_Defensive.cfg", 8), ("MC_LiveOrd.cfg", 6),
+                    ("MC_LiveProbe.cfg", 8), ("MC_TimeWD.cfg", 6), ("MC_TimeDW.cfg", 8), ("MC_FourI.cfg", 8)]
+    # -coverage on one config per tier: every action of the model must be exercised.  (ProbeLimit needs
+    # three requests on a probe key; the two-request quick config cannot reach it, so the quick tier
+    # requires it among the simulated schedules instead.)
+    cov_cfg = "MC_Probe.cfg" if thorough else "MC_Probe2.cfg"
     for cfg, w in (full if thorough else quick):
-        ctx.tlc("Dedup", "MC_Dedup.tla", cfg, workers=w, timeout=1500, heap="10g", tag="exhaustive")
+        args = ["-coverage", "1"] if cfg == cov_cfg else []
+        r = ctx.tlc("Dedup", "MC_Dedup.tla", cfg, workers=w, timeout=2400, heap="10g", tag="exhaustive", args=args)
+        if cfg == cov_cfg:
+            zero = [a for a in r.zero_coverage() if a != "Tick" and (thorough or a != "ProbeLimit")]
+            if zero:
+                raise vf.MachineryError("Dedup actions never taken in %s: %s" % (cov_cfg, zero))
     # non-vacuity: without the writer guard TLC must find two replies
     r = ctx.tlc("Dedup", "MC_Dedup.tla", "MC_NoGuard.cfg", workers=2, timeout=300, heap="4g",
                 must_pass=False, tag="negative", count=False)
     if r.violated != "AtMostOneReply":
         raise vf.MachineryError("negative config MC_NoGuard did not violate AtMostOneReply (got %s): "
                                 "the invariant would be vacuous" % r.violated)
-    # coverage: every action of the model is exercised
-    # (ProbeLimit needs three requests on a probe key; two-request quick config cannot reach it,
-    # the replay plans below require it among the simulated behaviours instead)
-    cov_cfg = "MC_Probe.cfg" if thorough else "MC_Probe2.cfg"
-    r = ctx.tlc("Dedup", "MC_Dedup.tla", cov_cfg, workers=6 if thorough else 2, timeout=900, heap="6g",
-                args=["-coverage", "1"], tag="coverage", count=False)
-    zero = [a for a in r.zero_coverage() if a not in ("Tick",) and (thorough or a != "ProbeLimit")]
-    if zero:
-        raise vf.MachineryError("Dedup actions never taken in %s: %s" % (cov_cfg, zero))
 
 
 def run_core(ctx):
